@@ -81,7 +81,7 @@ pub fn faults(r: &Rendered, rng: &mut Rng, all: bool) -> Vec<(String, String)> {
         // (`xmlns:xml="http://www.w3.org/XML/1998/namespace"` is legal: the renderer writes it.)
         let reserved = *rng.pick(RESERVED_DECLS);
         out.push(("reserved-prefix-or-namespace-rebound".into(), insert_at(t, at, reserved)));
-        // Namespaces in XML 1.0 section 2.2 / 5: only the default namespace can be undeclared
+        // Namespaces in XML 1.0 section 3, NSC 'No Prefix Undeclaring': only the default namespace can be undeclared
         out.push(("prefixed-undeclaration".into(), insert_at(t, at, *rng.pick(&[" xmlns:zr=''", " xmlns:zr=\"\""]))));
     }
     for at in cap(r.text_points.clone(), rng) {
@@ -170,10 +170,11 @@ pub fn faults(r: &Rendered, rng: &mut Rng, all: bool) -> Vec<(String, String)> {
 pub const XMLNS_NS: &str = "http://www.w3.org/2000/xmlns/";
 
 /// Namespaces in XML 1.0 on the declarations among the tokens: (a reserved prefix or namespace
-/// name is bound against section 3, a prefix is declared with an empty namespace name).
+/// name is bound against section 3, a prefix is declared with an empty namespace name, the prefix
+/// `xml` itself is bound to another namespace name — a special case of the first).
 /// `xmlns:xml="http://www.w3.org/XML/1998/namespace"` is legal.
-pub fn namespace_constraint_violations(dump: &Dump) -> (bool, bool) {
-    let (mut reserved, mut undeclared) = (false, false);
+pub fn namespace_constraint_violations(dump: &Dump) -> (bool, bool, bool) {
+    let (mut reserved, mut undeclared, mut xml_rebound) = (false, false, false);
     for t in &dump.toks {
         if let Tok::Attr { prefix, local, value, .. } = t {
             let p = if prefix == "xmlns" {
@@ -189,10 +190,11 @@ pub fn namespace_constraint_violations(dump: &Dump) -> (bool, bool) {
             };
             if p == "xmlns" || uri == XMLNS_NS || (p == "xml") != (uri == XML_NS) {
                 reserved = true;
+                xml_rebound |= p == "xml" && uri != XML_NS;
             } else if !p.is_empty() && uri.is_empty() {
                 undeclared = true;
             }
         }
     }
-    (reserved, undeclared)
+    (reserved, undeclared, xml_rebound)
 }
